@@ -571,6 +571,31 @@ def oracle(case):
             raise Violation("c16:encoding-differs-from-layout:after-in-place-change", "object encoded, content changed in place at nesting depth %d, "
                             "encoded again: %s, layout of the current content %s" % (deepest, second.hex()[:80], want.hex()[:80]))
         life = "in-place-change/depth%d" % min(deepest, 2)
+    # 10. the same Envelope object decoding a second datagram in which an optional field that the first one carried is absent:
+    #     nothing of the first content may stay behind (decode(encode(v)) == v also for a re-used object)
+    opt = next((f for f in fields if f.get("pres") and codec_ref.present(f, vals) and f.get("name") in vals), None)
+    if opt is not None:
+        v_b = copy.deepcopy(vals)
+        v_b[opt["pres"]] = 0
+        del v_b[opt["name"]]
+        try:
+            ref_b = bytes(codec_ref.encode(fields, v_b).octets)
+        except codec_ref.Unencodable:
+            ref_b = None
+        if ref_b is not None:
+            env10 = build_env(fields)
+            try:
+                env10.from_bytes(ref)
+                env10.from_bytes(ref_b)
+                again = bytes(env10.to_bytes())
+            except (codec.DecodeError, codec.EncodeError) as e:
+                raise Violation("c16:reused-object-decode", "%r" % (e,))
+            if opt["name"] in env10.c and env10.c[opt["name"]] is not None:
+                raise Violation("c16:reused-object-keeps-old-content", "optional field %s absent in the second datagram still holds %r" % (
+                    opt["name"], env10.c[opt["name"]]))
+            if not same(dict(env10.c), expected(fields, v_b)) or again != ref_b:
+                raise Violation("c16:reused-object-roundtrip", "second decode on the same object: %r" % (dict(env10.c),))
+            life = (life + "+" if life else "") + "reused-decode"
     cl = classify(fields)
     if life:
         cl = set(cl) | {life}
